@@ -13,6 +13,16 @@ func (ctx context) generatePrimaryTable(ta sql.Table, cols columnsCode) []gen.De
 	goTypeName := ta.TableName()
 	sqlTableName := gen.SQLTableName(goTypeName)
 
+	updateSet := fmt.Sprintf(`(
+		%s
+		) = (
+		%s
+		)`, cols.sqlColumnNamesNoPrimary, cols.sqlPlaceholdersNoPrimary)
+	if cols.columnsCount == 2 {
+		// only one column besides the id : PostgreSQL (>= 10) rejects the row syntax (a) = ($1)
+		updateSet = fmt.Sprintf("%s = %s", cols.sqlColumnNamesNoPrimary, cols.sqlPlaceholdersNoPrimary)
+	}
+
 	content := fmt.Sprintf(`
 func scanOne%[1]s(row scanner) (%[1]s, error) {
 	var item %[1]s
@@ -96,11 +106,7 @@ func (item %[1]s) Insert(tx DB) (out %[1]s, err error) {
 
 // Update %[1]s in the database and returns the new version.
 func (item %[1]s) Update(tx DB) (out %[1]s, err error) {
-	row := tx.QueryRow(`+"`"+`UPDATE %[3]s SET (
-		%[5]s
-		) = (
-		%[6]s
-		) WHERE id = $%[8]d RETURNING %[10]s;
+	row := tx.QueryRow(`+"`"+`UPDATE %[3]s SET %[11]s WHERE id = $%[8]d RETURNING %[10]s;
 		`+"`,"+`%[7]s, item.%[9]s)
 	return Scan%[1]s(row)
 }
@@ -122,7 +128,7 @@ func Delete%[1]ssByIDs(tx DB, ids ...%[2]s) ([]%[2]s, error) {
 `, goTypeName, idTypeName, sqlTableName,
 		cols.goScanFields, cols.sqlColumnNamesNoPrimary, cols.sqlPlaceholdersNoPrimary, cols.goValueFieldsNoPrimary,
 		cols.columnsCount, ta.Columns[primaryIndex].Field.Field.Name(),
-		cols.sqlColumnNames,
+		cols.sqlColumnNames, updateSet,
 	)
 
 	var out []gen.Declaration
